@@ -943,7 +943,10 @@ var blockRules = map[BlockKind]blockRule{
 			}
 			for i := block.ChildCount() - 1; i >= 0; i-- {
 				child := block.inlineChildren[i]
-				if child.Kind() != TextKind || !isBlankLine(spanSlice(source, child.Span())) {
+				// The rest of a tab that is only partly indentation
+				// does not make a line of spaces and tabs any less blank.
+				if child.Kind() != IndentKind &&
+					(child.Kind() != TextKind || !isBlankLine(spanSlice(source, child.Span()))) {
 					break
 				}
 				block.inlineChildren[i] = nil // free for GC
